@@ -2,7 +2,8 @@
 ID = 'C06'
 FUNCTIONS = [('devices', 'MZM'), ('devices', 'PM'), ('devices', 'LASER'), ('utils', 'idb'), ('utils', 'idbm'),
              ('typing', 'optical_signal.__getitem__')]
-BOUNDS = {'fields': 'N <= 2 (quick) / 3 (thorough) symbolic complex samples, one and two polarisations, with and without noise',
+BOUNDS = {'call-history differential': 'for the blocks of this property registered in vf/history.py (concrete orders / bandwidths / gains / gv configurations, symbolic samples): the call repeated in a session that first ran it with one parameter or one gv setting changed equals the call in a fresh library instance',
+          'fields': 'N <= 2 (quick) / 3 (thorough) symbolic complex samples, one and two polarisations, with and without noise',
           'parameters': 'drive, bias, Vpi > 0, loss_dB >= 0, ER_dB in [0, 60], laser power/linewidth/offset: all symbolic reals',
           'laser spectrum': 'N = 4 samples on the sampling grid, df in {-fs/4, 0, fs/4} (exact quarter-turn angles)'}
 OUTSIDE = ['N above the bound (element-wise code)', 'off-grid laser offsets for the spectral-peak clause', 'LASER with RIN (not a pure rotation)',
@@ -156,7 +157,9 @@ def scen_pm(env, cfg):
     Vpi = env.real('Vpi', 0.5, 10)
     m = 1 if dk == 'scalar' else n
     us = env.reals('u', m, -20, 20)
-    y = D.PM(x, _drive(env, dk, us), Vpi=Vpi)
+    drive = _drive(env, dk, us)
+    dsnap = [(a, env.snap(a)) for a in ([drive] if dk == 'ndarray' else [drive.signal] if dk == 'es' else [])]
+    y = D.PM(x, drive, Vpi=Vpi)
     ub = [us[k] if m == n else us[0] for k in range(n)]
     env.check('layout preserved; noise present on the output iff present on the input',
               y.signal.shape == x.signal.shape and y.n_pol == pol and (y.noise is not None) == noise)
@@ -177,6 +180,9 @@ def scen_pm(env, cfg):
     env.check('signal and noise are rotated by exp(j*pi*u/Vpi)', env.And(rot))
     env.check('instantaneous power of the total field is unchanged', env.And(pw))
     env.check('input untouched', env.And([env.untouched(a, s) for a, s in snaps]))
+    env.check('the drive (the caller\'s array / electrical_signal) is left untouched', env.And([env.untouched(a, s) for a, s in dsnap]) if dsnap else True)
+    y2 = D.PM(x, drive, Vpi=Vpi)
+    env.check('modulating again with the same drive object gives the same field', env.eqs(y2.signal, env.items(y.signal), scale=100))
 
 
 def scen_pm_compose(env, cfg):
@@ -301,4 +307,6 @@ def configs(tier):
             out.append((f'laser-{"lw" if lw else "nolw"}-{"df" if df else "nodf"}', scen_laser, dict(n=2 if q else 3, lw=lw, df=df), {}))
     for qq in (-1, 0, 1):
         out.append((f'laser-peak-df{qq}fs/4', scen_laser_peak, dict(q=qq), {}))
+    from vf import history as _history        # call-history differential of this property's blocks (vf/history.py)
+    out += _history.configs_for('C06')
     return out
